@@ -25,6 +25,12 @@ PLAN = {
         "argument identity is checked by pointer+length for names/descriptions/label parts/metadata and by value for units; two names (one empty), four unit options, keys with 0 and 2 labels",
         "panic = failure; unwinding not modelled; single-threaded (layers hold no shared mutable state)",
     ],
+    # plain tests of the routing / filtering clauses against brute-force references, on the real crate: run when the named
+    # obligation fails (replay), was demoted to undecided, or its function left the verified subset; a FAILING witness confirms
+    "witnesses": [
+        {"match": r"(Router :: fn route|fn route\b|c13_router)", "name": "impl Router :: fn route", "src": "witness_router.rs", "crate": "metrics-util", "file": "metrics-util/src/layers/router.rs"},
+        {"match": r"(FilterLayer|fn should_filter|c13_filter)", "name": "impl Layer for FilterLayer :: fn layer", "src": "witness_filter.rs", "crate": "metrics-util", "file": "metrics-util/src/layers/filter.rs"},
+    ],
     "verus": [
         # layer glue the Kani harnesses take as given: Router::route's use of the trie answer, FilterLayer::layer's automaton settings
         {"template": "glue.verus.rs", "tier": "quick", "rlimit": 30, "min_functions": 4},
